@@ -215,13 +215,15 @@ struct Job {
     data_shape: Vec<usize>,
     query_shape: Vec<usize>,
     strat: &'static str,
+    /// the query is exactly the knot vector of the (default index) axis
+    knot_query: bool,
 }
 impl Job {
     fn extrapolate(&self) -> bool {
         self.strat.ends_with("+extrapolate")
     }
     fn key(&self) -> String {
-        format!("{}:{}:data{:?}:query{:?}", if self.two_d { "Interp2D" } else { "Interp1D" }, self.strat, self.data_shape, self.query_shape).replace(' ', "")
+        format!("{}:{}:data{:?}:query{:?}{}", if self.two_d { "Interp2D" } else { "Interp1D" }, self.strat, self.data_shape, self.query_shape, if self.knot_query { "=knots" } else { "" }).replace(' ', "")
     }
 }
 
@@ -231,7 +233,12 @@ macro_rules! with_1d {
     ($job:expr, $out:expr, $strat:expr, [$(($d:ty, $dq:ty, $dn:expr, $qn:expr)),*]) => {{
         let job: &Job = $job;
         let data = data_nd(&job.data_shape);
-        let xs = query_nd(&job.query_shape, (job.data_shape[0] - 1) as f64);
+        let mut xs = query_nd(&job.query_shape, (job.data_shape[0] - 1) as f64);
+        if job.knot_query {
+            for (i, v) in xs.iter_mut().enumerate() {
+                *v = i as f64;
+            }
+        }
         let nq = job.query_shape.len();
         let mut expected = job.query_shape.clone();
         expected.extend_from_slice(&job.data_shape[1..]);
@@ -353,8 +360,14 @@ fn run_1d(job: &Job, out: &mut JobOut) {
 
 fn run_2d(job: &Job, out: &mut JobOut) {
     let data = data_nd(&job.data_shape);
-    let xs = query_nd(&job.query_shape, (job.data_shape[0] - 1) as f64);
-    let ys = query_nd(&job.query_shape, (job.data_shape[1] - 1) as f64).mapv(|v| (v * 1.3) % ((job.data_shape[1] - 1) as f64));
+    let mut xs = query_nd(&job.query_shape, (job.data_shape[0] - 1) as f64);
+    let mut ys = query_nd(&job.query_shape, (job.data_shape[1] - 1) as f64).mapv(|v| (v * 1.3) % ((job.data_shape[1] - 1) as f64));
+    if job.knot_query {
+        for (i, (a, b)) in xs.iter_mut().zip(ys.iter_mut()).enumerate() {
+            *a = i as f64;
+            *b = i as f64;
+        }
+    }
     let nq = job.query_shape.len();
     let mut expected = job.query_shape.clone();
     expected.extend_from_slice(&job.data_shape[2..]);
@@ -482,13 +495,19 @@ fn body(ctx: &Ctx) -> (Summary, Meta) {
     for strat in ["Linear", "CubicSpline", "Linear+extrapolate", "CubicSpline+extrapolate"] {
         for ds in [vec![4], vec![4, 3], vec![4, 3, 2], vec![4, 2, 3, 2], vec![4, 2, 2], vec![4, 1], vec![4, 1, 3], vec![4, 3, 1]] {
             for qs in &qshapes {
-                jobs.push(Job { two_d: false, data_shape: ds.clone(), query_shape: qs.clone(), strat });
+                jobs.push(Job { two_d: false, data_shape: ds.clone(), query_shape: qs.clone(), strat, knot_query: false });
+                if qs.len() == 1 && qs[0] == ds[0] {
+                    jobs.push(Job { two_d: false, data_shape: ds.clone(), query_shape: qs.clone(), strat, knot_query: true });
+                }
             }
         }
     }
-    for ds in [vec![3, 4], vec![3, 4, 3], vec![3, 4, 3, 2], vec![4, 3, 2, 2], vec![3, 4, 1], vec![3, 4, 1, 2]] {
+    for ds in [vec![3, 4], vec![3, 4, 3], vec![3, 4, 3, 2], vec![4, 3, 2, 2], vec![3, 4, 1], vec![3, 4, 1, 2], vec![4, 4], vec![4, 4, 2]] {
         for qs in &qshapes {
-            jobs.push(Job { two_d: true, data_shape: ds.clone(), query_shape: qs.clone(), strat: "Bilinear" });
+            jobs.push(Job { two_d: true, data_shape: ds.clone(), query_shape: qs.clone(), strat: "Bilinear", knot_query: false });
+            if qs.len() == 1 && qs[0] == ds[0] && ds[0] == ds[1] {
+                jobs.push(Job { two_d: true, data_shape: ds.clone(), query_shape: qs.clone(), strat: "Bilinear", knot_query: true });
+            }
         }
     }
     let njobs = jobs.len();
@@ -507,7 +526,7 @@ fn body(ctx: &Ctx) -> (Summary, Meta) {
         out
     });
     let meta = Meta {
-        rule: "every *_into entry point of Interp1D (Linear, CubicSpline) and Interp2D (Bilinear) x data shapes of rank 1..4 x query shapes of rank 0..3 x every static (data dim, query dim) instantiation matching those ranks plus the dynamic ones x buffer shape variants {correct, each axis -1/+1, every swap of two unequal axes (query axes, trailing axes, across), rank+1, two axes merged (same element count), refactored element count}, each buffer being a window into a larger array filled with poison; 2-D: xs/ys of different shapes (each axis +-1, permuted, flattened). Oracle: correct shape => Ok, bitwise equal to the allocating variant, no poison left inside; any other shape => never Ok; poison outside the window intact in every case. Non-trivial = a wrongly shaped buffer or mismatched xs/ys.".into(),
+        rule: "every *_into entry point of Interp1D (Linear, CubicSpline) and Interp2D (Bilinear) x data shapes of rank 1..4 x query shapes of rank 0..3 x every static (data dim, query dim) instantiation matching those ranks plus the dynamic ones x buffer shape variants {correct, each axis -1/+1, every swap of two unequal axes (query axes, trailing axes, across), rank+1, two axes merged (same element count), refactored element count}, each buffer being a window into a larger array filled with poison; 2-D: xs/ys of different shapes (each axis +-1, permuted, flattened). Oracle: correct shape => Ok, bitwise equal to the allocating variant, no poison left inside; any other shape => never Ok; poison outside the window intact in every case. Also with the query being exactly the knot vector of the axis (both axes in 2-D). Non-trivial = a wrongly shaped buffer or mismatched xs/ys.".into(),
         bounds: format!("{njobs} (interpolator, data shape, query shape) jobs; tier {}", ctx.tier.name()),
         assumptions: vec!["a panic (caught) is the documented rejection; a returned Err would also count as 'not Ok'".into()],
         extra: vec![],
